@@ -66,6 +66,60 @@ def do_poly(p):
     return out
 
 
+def orient_bit(arr, v):
+    """0: arr is the vertex array v, 1: v reversed, 2: neither"""
+    arr = np.asarray(arr)
+    if arr.shape == v.shape and np.array_equal(arr, v):
+        return 0
+    if arr.shape == v.shape and np.array_equal(arr, v[::-1]):
+        return 1
+    return 2
+
+
+def attrs_ok(pol):
+    """lon/lat/cvertices of the object describe its own vertices (lon up to whole turns)"""
+    try:
+        dl = (np.asarray(pol.lon) - pol.vertices[:, 0]) / (2 * np.pi)
+        cv = np.array([np.cos(pol.vertices[:, 1]) * np.cos(pol.vertices[:, 0]), np.cos(pol.vertices[:, 1]) * np.sin(pol.vertices[:, 0]),
+                       np.sin(pol.vertices[:, 1])]).T * pol.radius
+        return bool(np.allclose(dl, np.round(dl), atol=1e-9) and np.array_equal(np.asarray(pol.lat), pol.vertices[:, 1])
+                    and np.allclose(pol.cvertices, cv, atol=1e-9 * max(1.0, abs(pol.radius)))
+                    and np.array_equal(pol.x__, pol.cvertices[:, 0]) and np.array_equal(pol.z__, pol.cvertices[:, 2]))
+    except Exception:  # noqa
+        return False
+
+
+def do_hist(h):
+    """one object driven through a history of calls (0 area(), 1 inverse(), 2 invert()); after every call the object,
+    the returned object and the caller's array are observed and areas of FRESH objects are given for comparison"""
+    out = {"steps": []}
+    try:
+        v = np.array(h["v"], dtype=np.float64)
+        r = h["r"]
+        out["fresh"] = [float(SphPolygon(v.copy(), radius=r).area()), float(SphPolygon(np.flipud(v.copy()), radius=r).area())]
+        given = v.copy()
+        pol = SphPolygon(given, radius=r)
+        for op in h["ops"]:
+            st = {"op": op}
+            if op == 0:
+                st["ret_area"] = float(pol.area())
+            elif op == 1:
+                ret = pol.inverse()
+                st["ret_state"] = orient_bit(ret.vertices, v)
+                st["ret_area"] = float(ret.area())
+                st["ret_attrs_ok"] = attrs_ok(ret)
+            else:
+                pol.invert()
+            st["state"] = orient_bit(pol.vertices, v)
+            st["attrs_ok"] = attrs_ok(pol)
+            st["area"] = float(pol.area())
+            st["input_state"] = orient_bit(given, v)
+            out["steps"].append(st)
+    except Exception as e:  # noqa
+        out["error"] = "%s: %s" % (type(e).__name__, e)
+    return out
+
+
 def cart(lon, lat):
     return np.array([np.cos(lat) * np.cos(lon), np.cos(lat) * np.sin(lon), np.sin(lat)])
 
@@ -160,6 +214,11 @@ def do_pair(p):
     out["inter_ba"] = run_op(b, a, "intersection")
     out["union_ab"] = run_op(a, b, "union")
     out["union_ba"] = run_op(b, a, "union")
+    # the set operations are pure: the operands are what they were
+    out["area_a_after"] = float(a.area())
+    out["area_b_after"] = float(b.area())
+    out["operands_unchanged"] = bool(np.array_equal(a.vertices, np.array(p["a"], dtype=np.float64))
+                                     and np.array_equal(b.vertices, np.array(p["b"], dtype=np.float64)))
     if p.get("table"):
         try:
             out["table_ab"] = table(a, b)
@@ -170,7 +229,7 @@ def do_pair(p):
 
 
 req = json.load(sys.stdin)
-res = {"polys": [do_poly(p) for p in req.get("polys", [])], "pairs": []}
+res = {"polys": [do_poly(p) for p in req.get("polys", [])], "pairs": [], "hist": [do_hist(h) for h in req.get("hist", [])]}
 for p in req.get("pairs", []):
     try:
         res["pairs"].append(do_pair(p))
